@@ -174,6 +174,29 @@ def run(ctx):
     duplicate_guard_rule(ctx, r3)
 
     # ---- R4 -----------------------------------------------------------------------------
+    # ---- R7 the decoder is built over the same code as the encoder ----------------------------------------------------------------
+    r7 = ctx.rule("C02.R7", "BlockDecoder::init builds the Reed-Solomon codec of a block with (the block's source-symbol count, "
+                            "oti.max_number_of_parity_symbols, oti.encoding_symbol_length) as handed in - the sender creates exactly that many "
+                            "repair symbols per block; a receiver that sizes its code differently drops the repair symbols it has no slot for", "ARG")
+    bd = prog.fn("receiver::blockdecoder::BlockDecoder::init")
+    ctx.analysed(bd.path)
+    bsl = Slicer(bd.body)
+    k_name = bd.body.names.get(3)      # init(&mut self, oti, nb_source_symbols, ..)
+    for s in call_sites(bd, lambda p, c: p.endswith("RSGalois8Codec::new")):
+        want = [(k_name, r"^%s$" % re.escape(k_name or "?")), ("oti.max_number_of_parity_symbols", r"^oti\.max_number_of_parity_symbols$"),
+                ("oti.encoding_symbol_length", r"^oti\.encoding_symbol_length$")]
+        for i, (what, rx_) in enumerate(want):
+            e = bsl.expand(s.expr[2][i])
+            while e[0] == "cast" and e[3] == "IntToInt" and e[1] in ("usize", "u64", "u128"):
+                e = e[2]
+            key = "BlockDecoder::init RSGalois8Codec::new argument %d" % i
+            if re.match(rx_, show(e, 120)):
+                r7.ok(key, "<- %s" % what, s.loc)
+            else:
+                r7.violation(key, "the receiver's Reed-Solomon code is built with %s where the sender uses %s: symbols the two codes do not share are "
+                                  "dropped or misdecoded" % (show(e, 80), what), s.loc)
+    r7.floor(6, "codec constructor arguments")
+
     r4 = ctx.rule("C02.R4", "RSGalois8Codec::can_decode is true iff received >= k; NoCodeDecoder::can_decode is true iff "
                             "received == number of shards", "E3 decision table")
     for st, methods, imp in prog.trait_impls.get("fec::FecDecoder", []):
